@@ -59,9 +59,13 @@ func scenario(p params, bounds []int) *vexp.Scenario {
 		Bounds: bounds,
 		Setup:  func(x *vexp.X) { vsys.CoarseSetupSends() },
 		Body: func(x *vexp.X) {
-			vnet.Reset()
+			nw := vnet.Reset()
 			mk := func(bind string) *vsys.World {
 				opts := []vivid.ActorSystemOption{vivid.WithActorSystemRemoting(bind), vivid.WithActorSystemDefaultAskTimeout(20 * time.Second)}
+				if p.pre == "peer-was-down" {
+					// four retries, 100 ms doubling: a delivery is given up 1.5 s after its first attempt
+					opts = append(opts, vivid.WithActorSystemRemotingOption(vivid.WithActorSystemRemotingReconnect(4, 100*time.Millisecond, time.Second, 2, false)))
+				}
 				if p.codec {
 					opts = append(opts, vivid.WithActorSystemCodec(vcodec.UserCodec{}))
 				}
@@ -239,6 +243,19 @@ func scenario(p params, bounds []int) *vexp.Scenario {
 			if p.pre == "undecodable-tell" {
 				do("undecodable-tell")
 				settle(time.Second)
+			}
+			if p.pre == "peer-was-down" {
+				// the peer is unreachable for longer than the retry window: one message to it is given up. The operation under
+				// test is then issued while the peer is still unreachable; the peer is back 300 ms later, well inside the window
+				down := true
+				nw.Refuse = func(to string, idx int) bool { return down && p.remote && to == addrB }
+				for _, c := range nw.Conns {
+					c.Break()
+				}
+				do("tell")
+				settle(4 * time.Second)
+				targetSaw, callerSaw, killer = nil, nil, ""
+				vrt.AddTimer(int64(300*time.Millisecond), "peer-up", func() { down = false })
 			}
 			if p.pre == "reused-name" {
 				do("tell")
@@ -440,6 +457,12 @@ func build(tier string) []*vexp.Scenario {
 		return scenario(params{op: "watch-kill", remote: true, pre: "first-contact"}, []int{0, 1, 2})
 	})...)
 	out = append(out, scenario(params{op: "once-to-namesake", remote: true}, []int{0}))
+	// the same operations after the peer was unreachable for longer than the retry window, issued shortly before it is back
+	for _, op := range []string{"tell", "ask", "kill", "watch", "ping", "pipe-ok", "pipe-remote-forwarder"} {
+		for _, remote := range []bool{false, true} {
+			out = append(out, scenario(params{op: op, remote: remote, pre: "peer-was-down"}, []int{0}))
+		}
+	}
 	// the same operations right after one message that the receiving side could not decode
 	for _, op := range []string{"tell", "ask", "kill", "watch", "ping", "pipe-remote-forwarder"} {
 		out = append(out, scenario(params{op: op, remote: true, pre: "undecodable-tell"}, []int{0}))
